@@ -51,6 +51,15 @@ register("C01", _load_c01, {"quick": {"runs": 16000, "wall": 120},
                             "thorough": {"runs": 500000, "wall": 1800}})
 
 
+def _load_c04():
+    from .props.c04 import C04
+    return [C04()]
+
+
+register("C04", _load_c04, {"quick": {"runs": 4000, "wall": 120},
+                            "thorough": {"runs": 150000, "wall": 1800}})
+
+
 def _load_c09():
     from .props.c09 import C09
     return [C09()]
@@ -137,7 +146,7 @@ def sample_of(program, nmax=14):
             a["spec"] = {k: sp[k] for k in ("kind", "sym", "charge", "dtype") if k in sp}
             a["spec"]["nsectors"] = len(sp.get("sectors", sp.get("cm", [])))
         d = {"op": s["op"], "in": s.get("in", []), "out": s.get("out", []), "a": a}
-        for k in ("crash_n", "thread", "route"):
+        for k in ("crash_n", "thread", "route", "ta", "tb", "bonds", "perm", "t", "legs", "mode", "net"):
             if k in s:
                 d[k] = s[k]
         steps.append(d)
